@@ -664,6 +664,26 @@ func runC05(c *Ctx, pr *PropertyRun) {
 			Setup: func(in *Interp) {
 				in.OpenExternal = func(n *types.Named) bool { return n.Obj().Pkg().Path() == "net/url" && n.Obj().Name() == "URL" }
 				in.Models = append(in.Models, func(in *Interp, site ssa.CallInstruction, name string, args []Val) (Val, bool) {
+					if name == "(*net/url.URL).ResolveReference" {
+						// RFC 3986 reference resolution is NOT path.Join: it
+						// drops the last segment of a base without trailing
+						// slash; kept apart as its own function of the inputs
+						ut := in.c.P.lookupType("net/url", "URL")
+						st := zeroOf(ut).(Struct)
+						base, ref := args[0], args[1]
+						setF := func(name string, v Val) {
+							stt := ut.Underlying().(*types.Struct)
+							for i := 0; i < stt.NumFields(); i++ {
+								if stt.Field(i).Name() == name {
+									st.F[i].Set(v)
+								}
+							}
+						}
+						setF("Path", SymStr{Key: "rfc3986-resolve(" + keyOf(fieldVal(base, "Path")) + "," + keyOf(fieldVal(ref, "Path")) + ")"})
+						setF("Host", fieldVal(base, "Host"))
+						setF("Scheme", fieldVal(base, "Scheme"))
+						return Ptr{&Cell{V: st, T: ut}}, true
+					}
 					if name == "path.Join" {
 						var ks []string
 						for _, e := range sliceArgs(in, args[0], site) {
@@ -807,6 +827,10 @@ func runC05(c *Ctx, pr *PropertyRun) {
 	}
 	opt.RequireRole("decision-table")
 
+	// the wire codecs of names, tags and dates are inverse pairs (shared with C16.pairs)
+	c16Pairs(c, pr, "C05", func(what string) bool {
+		return strings.HasPrefix(what, "entity tag") || what == "HTTP date" || what == "href"
+	})
 	// modification times are written as UTC (shared with C16.utc): a literal
 	// "GMT"/"Z" layout applied to an instant in another zone shifts it
 	utcRule(c, pr, "C05")
